@@ -162,6 +162,10 @@ pub fn run(a: &Args) {
             check_frame(&mut o, &t, &v, "boundary", variant < 2);
         }
     }
+    // str / bytes payloads (block writes) ending around each block boundary
+    for (t, v) in gen::block_write_boundary_vals(&mut r, a.thorough) {
+        check_frame(&mut o, &t, &v, "block_write_boundary", false);
+    }
     // random messages and random typed values
     let n = if a.thorough { 20000 } else { 800 };
     for _ in 0..n {
@@ -195,5 +199,5 @@ pub fn run(a: &Args) {
         let drop = r.chance(1, 2);
         check_sequence(&mut o, &mut r, &items, drop);
     }
-    o.finish(&a.summary, "messages as u8-tuples whose plain encoding is the message itself: exhaustive over {00,01,02,FF} up to length 6 (8 in thorough), run lengths 253..255/507..509/761..763 with leading, interior and trailing zeros, random messages, random typed values; three storages; frame sequences of 1..6 frames with and without the last sentinel decoded frame by frame; distinct = distinct plain encoding / stream, non-trivial = non-empty");
+    o.finish(&a.summary, "messages as u8-tuples whose plain encoding is the message itself: exhaustive over {00,01,02,FF} up to length 6 (8 in thorough), run lengths 253..255/507..509/761..763 with leading, interior and trailing zeros, str/bytes payloads whose block writes end around each boundary, random messages, random typed values; three storages; frame sequences of 1..6 frames with and without the last sentinel decoded frame by frame; distinct = distinct plain encoding / stream, non-trivial = non-empty");
 }
